@@ -120,7 +120,7 @@ impl Callback for UnspentCsvDump {
         self.writer.flush()?;
 
         #[cfg(rbp_verif)]
-        crate::verif::ev("rename", &format!("\"file\":\"unspent.csv.tmp\",\"to\":\"unspent-{}-{}.csv\",\"buffered\":{}", self.start_height, block_height, self.writer.buffer().len()));
+        crate::verif::ev("rename", &format!("\"file\":\"unspent.csv.tmp\",\"to\":\"unspent-{}-{}.csv\",\"buffered\":{},\"ino\":{}", self.start_height, block_height, self.writer.buffer().len(), crate::verif::ino(&self.dump_folder.as_path().join("unspent.csv.tmp"))));
         fs::rename(
             self.dump_folder.as_path().join("unspent.csv.tmp"),
             self.dump_folder.as_path().join(format!(
@@ -129,7 +129,7 @@ impl Callback for UnspentCsvDump {
             )),
         )?;
         #[cfg(rbp_verif)]
-        crate::verif::ev("renamed", "\"file\":\"unspent.csv.tmp\"");
+        crate::verif::ev("renamed", &format!("\"file\":\"unspent.csv.tmp\",\"ino\":{}", crate::verif::ino(&self.dump_folder.as_path().join(format!("unspent-{}-{}.csv", self.start_height, block_height)))));
 
         info!(target: "callback", "Done.\nDumped blocks from height {} to {}:\n\
                                    \t-> transactions: {:9}\n\
